@@ -66,12 +66,13 @@ def r1(ctx, F):
     rb, rt = renames[0]
     src_o = fl.origins(ct['args'][0])
     dst_o = fl.origins(rt['args'][1])
-    is_in = lambda os_, name: bool(os_) and all((o.kind == 'upvar' and b.upvars.get(int(o.key)) == name) or
-                                                 (o.kind == 'param' and b.local_name(o.key) == name) for o in os_)
+    # roles by use, not by name: src = the parameter that is copied from, dst = the parameter that is renamed onto
+    src_s, dst_s = param_slots(F, b, src_o), param_slots(F, b, dst_o)
     staged = is_staging(fl, ct['args'][1]) and is_staging(fl, rt['args'][0])
     same_tmp = {(o.bb) for o in fl.origins(ct['args'][1])} == {(o.bb) for o in fl.origins(rt['args'][0])}
-    tmp_of_dst = all(is_in(call_arg_origins(fl, o.bb, 0), 'dst') for o in fl.origins(rt['args'][0]))
-    ctx.check(staged and same_tmp and tmp_of_dst and is_in(src_o, 'src') and is_in(dst_o, 'dst'), 'C09.R1', 'deliver_local:staging',
+    tmp_of_dst = bool(dst_s) and all(param_slots(F, b, call_arg_origins(fl, o.bb, 0)) == dst_s for o in fl.origins(rt['args'][0]))
+    roles = bool(src_s) and bool(dst_s) and len(src_s) == 1 and len(dst_s) == 1 and src_s != dst_s
+    ctx.check(staged and same_tmp and tmp_of_dst and roles, 'C09.R1', 'deliver_local:staging',
               'copy(src, tmp_path(dst)); rename(that tmp, dst)', 'deliver_local does not stage into tmp_path(dst) and rename that file onto dst', term_loc(b, cb))
     ctx.check(fl.guarded_by(rb, cb, 'Ok'), 'C09.R1', 'deliver_local:copy-ok-guards-rename', 'rename only under the Ok edge of the copy',
               'deliver_local renames the staging file onto the destination even if the copy failed or was partial', term_loc(b, rb))
@@ -118,7 +119,12 @@ def r2(ctx, F):
     ok_c = bool(creates)
     for cb, ct in creates:
         po = tfl.origins(ct['args'][tables.CONTENT_CREATORS[callee(ct)]])
-        ok_c = ok_c and all((o.kind == 'upvar' and t.upvars.get(int(o.key)) == 'local_path') or (o.kind == 'param' and t.local_name(o.key) == 'local_path') for o in po)
+        cs = param_slots(F, t, po)
+        ok_c = ok_c and cs is not None and len(cs) == 1
+        # ... and that parameter is the one the caller fills with its staging path
+        if ok_c:
+            slot = list(cs)[0]
+            ok_c = slot - 1 < len(tt['args']) and is_staging(fl, tt['args'][slot - 1])
     ctx.check(ok_c, 'C09.R2', 'transfer_file_from_remote:writes-its-argument', 'creates exactly the path it was given',
               'transfer_file_from_remote creates a file other than the path handed to it', loc(t, t.lo))
 
